@@ -17,6 +17,8 @@ Differences from task.Clock that matter (DESIGN 6 C15, learned from a prototype)
   * simultaneous calls are ordered by an explicit tie-break oracle (a list of
     choice indices consumed one per tie), the same oracle the Coq model
     (coq/Model/Reactor.v) takes as an argument;
+  * callWhenRunning hooks registered before run() fire at start-up in registration order, all of them, even when
+    one of them stops the reactor (the real reactor fires every 'after startup' trigger);
   * run() installs its own handlers for SIGINT/SIGTERM/SIGCHLD like the real
     reactor, so that "the handlers are restored" is not vacuous;
   * interrupts (C14) are out-of-band events at virtual instants, delivered like a signal whose handler
@@ -96,7 +98,10 @@ class VReactor:
                 sig = getattr(signal, name, None)
                 if sig is not None:
                     signal.signal(sig, self._handler)
-        while self._hooks and self.running:
+        # 'after startup' triggers: ALL of them fire, in registration order, whatever crash() did meanwhile - as in
+        # the real reactor, where only the main loop looks at `running` (identical to the former "while running"
+        # loop unless a hook stops the reactor while others are still waiting)
+        while self._hooks:
             f, a, kw = self._hooks.pop(0)
             f(*a, **kw)
         while self.running:
